@@ -13,14 +13,20 @@ LEVEL = "exploration"
 TECHNIQUE = ("runtime monitor at network.msg.* vs an independent message-digest / compact-signature / public-key-recovery "
              "reference; totality oracle (bool, never an exception) over hostile signature text")
 RULE = ("honest cases: (network, secret exponent, compression flag, message) with keys at the range boundaries and random, "
-        "messages empty / ASCII / multi-line LF-only or CRLF-only / > 252 and > 65,535 bytes / non-BMP unicode / marker "
-        "look-alikes / leading and trailing whitespace, on every usable registered network in the OpenSSL and pure-Python "
-        "configurations: digest, signature layout, recovery by reference arithmetic, verify for key / public key / address, "
-        "negatives (other message, negated and unrelated key, other-compression and unrelated address, other network), armoured "
-        "round trip. hostile cases: (network, target key or address, signature text): header byte 0..255, r in {0, 1, n-1, n, "
+        "messages empty / ASCII / multi-line LF-only or CRLF-only / 252, 253, 65,535 and 65,536 bytes (the length-prefix boundaries) "
+        "and beyond / non-BMP unicode / marker look-alikes / leading and trailing whitespace, on every usable registered network with "
+        "the OpenSSL arithmetic (quick: 18 cases per network - both key forms, the 12 boundary keys, a block of 12 of the 32 fixed "
+        "messages that moves on from network to network, 6 random ones) and, with the pure-Python arithmetic, on every network "
+        "(thorough) or every third one, rotating with the seed (quick): digest, signature layout, recovery by reference arithmetic, "
+        "verify for key / public key / address, "
+        "negatives (other message, negated and unrelated key, other-compression and unrelated address, the script-hash address "
+        "carrying the signer's key hash, other network), armoured "
+        "round trip. Each network, key form, key class, message region and configuration x workload has its own required counter. "
+        "hostile cases: (network, target key or address, signature text): header byte 0..255, r in {0, 1, n-1, n, "
         "n+1, p-1, p, p+1, 2^256-1, x without a curve point ...} x all 8 headers, s in {0, n, ...}, every bit of a valid signature "
         "flipped, base64 of every length 0..100 bytes, non-base64 and non-ASCII text, aliases (r+n, s=0) against the key they "
-        "would recover. template-syntax messages: text built only from the meta-characters and field names of text templating "
+        "would recover, signatures whose recovered key would be the point at infinity, and valid signatures with recovery id 2 / 3 "
+        "(R.x in [n, p)) for the key they really recover, which must verify. template-syntax messages: text built only from the meta-characters and field names of text templating "
         "({msg} {addr} {sig} {net_name} {} {0} {{ }} %s %(addr)s $addr ${sig} \\1 \\g<0> ...), so that any way of filling the armour "
         "other than one simultaneous substitution shows. message named by digest: every positive / negative verification is "
         "repeated through verify(..., msg_hash=digest) with message left None, right digest / digest of another message / right "
@@ -55,6 +61,15 @@ ASSUMPTIONS = [
     "the armoured round trip is demanded only for messages whose lines are joined by LF only or CRLF only, contain no other CR, "
     "no exotic line separators and no line that is an armour marker; messages outside that domain are still signed and verified",
     "signatures are not required to equal the RFC 6979 signature byte for byte (the statement does not say so)",
+    "a signature made by the reference (another signer's software: RFC 6979 nonce, low or high s, recovery id 0..3) over the digest of a "
+    "message is 'a produced signature' for the verifier: in histories and in the hostile class valid_recid_ge_2 it must verify for its "
+    "key and address. Recovery ids 2 and 3 (R.x >= n) occur in a produced signature with probability 2^-128 and cannot be found by "
+    "search, so they are reached only through such constructed signatures (the public key is recovered by the reference, no private "
+    "key is known)",
+    "'any other address' includes the pay-to-script-hash address of the same network whose 20 bytes are the signer's key hash: it names "
+    "a script, not the key (Bitcoin Core: 'Address does not refer to key'). Only True is a violation there; an exception is not judged. "
+    "The key's own segwit (p2wpkh) address is not queried: whether it is 'its address' is left open",
+    "parse_signed may return the three parts in any tuple or list",
     "verify(target, sig, msg_hash=h) with message left None is another spelling of 'the message whose digest is h' (it is what the "
     "command line tool uses); the property's verdicts are demanded for it with h the reference digest of a real message under a "
     "registered network's magic; calls that give both or neither of message / msg_hash are not judged",
@@ -92,22 +107,26 @@ def configurations(tier):
 def plan(tier, seed):
     q = tier == "quick"
     shards = []
+    # quick: 18 cases on each network (both key forms, 12 boundary keys, a block of 12 of the fixed messages that moves from network to
+    # network, 6 random ones): what differs between networks is the magic and the address prefix, everything else is spread over them
     parts = 7 if q else 9
     for part in range(parts):
-        shards.append({"kind": "honest", "part": part, "parts": parts, "per_net": 40 if q else 1600, "label": "honest-openssl-%d" % part})
-    parts = 4
+        shards.append({"kind": "honest", "part": part, "parts": parts, "per_net": 18 if q else 1600, "label": "honest-openssl-%d" % part})
+    # pure-Python arithmetic: the network-specific code (magic, address) does not depend on the arithmetic, so quick visits every third
+    # network (which third rotates with the seed); thorough visits all
+    parts = 2 if q else 4
     for part in range(parts):
-        shards.append({"kind": "honest", "part": part, "parts": parts, "per_net": 1 if q else 20, "light": True,
+        shards.append({"kind": "honest", "part": part, "parts": parts, "per_net": 1 if q else 20, "light": True, "net_stride": 3 if q else 1,
                        "env": {"PYCOIN_NATIVE": "none"}, "label": "honest-purepython-%d" % part})
     for i in range(4 if q else 10):
         shards.append({"kind": "hostile", "idx": i, "n": 5200 if q else 85000, "label": "hostile-openssl-%d" % i})
     shards.append({"kind": "hostile", "idx": 50, "n": 260 if q else 6000, "env": {"PYCOIN_NATIVE": "none"}, "label": "hostile-purepython"})
-    # call histories on reused signer objects (appended last so that the shards above keep their random streams)
+    # call histories on reused signer objects
     for i in range(2 if q else 6):
         shards.append({"kind": "history", "idx": i, "episodes": 28 if q else 900, "steps": 36, "label": "history-openssl-%d" % i})
     shards.append({"kind": "history", "idx": 60, "episodes": 2 if q else 40, "steps": 24, "env": {"PYCOIN_NATIVE": "none"},
                    "label": "history-purepython"})
-    # equivalent spellings of one text on both sides of sign / verify (appended last, see above)
+    # equivalent spellings of one text on both sides of sign / verify
     for i in range(3 if q else 8):
         shards.append({"kind": "equiv", "idx": i, "pairs": 132 if q else 6000, "label": "equiv-openssl-%d" % i})
     shards.append({"kind": "equiv", "idx": 70, "pairs": 9 if q else 220, "light": True, "env": {"PYCOIN_NATIVE": "none"}, "label": "equiv-purepython"})
@@ -189,14 +208,20 @@ def gen_line(rng):
     return " ".join(rng.choice(WORDS) for _ in range(rng.randrange(1, 8)))
 
 
+FIXED_MESSAGES = [("", True), ("a", True), ("hello world", True), ("\n", True), ("\r\n", True), (" ", True), ("x\n", True), ("\nx", True),
+                  ("x\r\n", True), (" padded ", True), ("a\nb", True), ("a\r\nb", True), ("a\n\nb\n", True), ("\u00e9" * 126, True), ("\u00e9" * 127, True),
+                  ("x" * 252, True), ("x" * 253, True), ("x" * 254, True), ("a\r\nb\nc", False), ("a\rb", False), ("x\r", False),
+                  ("head\n-----BEGIN SIGNATURE-----\ntail", False), (" line", True), ("a\x0bb\x0cc\x85d", False),
+                  ("send the coins to {addr} please", True), ("{sig}", True), ("layout: {msg} / {addr} / {sig} / {net_name}\nsecond line {addr}", True),
+                  ("%(addr)s %s %(sig)s $addr ${sig} $$", True), ("{{addr}} {0} {} } {", True), ("\\1 \\g<0> \\n \\", True),
+                  # the last length with a 3-byte CompactSize prefix and the first with a 5-byte one
+                  ("x" * 65535, True), ("\U0001F600" * 16384, True)]
+RANDOM_MESSAGE = 1 << 20        # an index past the fixed messages
+
+
 def gen_message(rng, i):
     """-> (message, in_armour_domain)."""
-    fixed = [("", True), ("a", True), ("hello world", True), ("\n", True), ("\r\n", True), (" ", True), ("x\n", True), ("\nx", True),
-             ("x\r\n", True), (" padded ", True), ("a\nb", True), ("a\r\nb", True), ("a\n\nb\n", True), ("é" * 126, True), ("é" * 127, True),
-             ("x" * 252, True), ("x" * 253, True), ("x" * 254, True), ("a\r\nb\nc", False), ("a\rb", False), ("x\r", False),
-             ("head\n-----BEGIN SIGNATURE-----\ntail", False), (" line", False), ("a\x0bb\x0cc\x85d", False),
-             ("send the coins to {addr} please", True), ("{sig}", True), ("layout: {msg} / {addr} / {sig} / {net_name}\nsecond line {addr}", True),
-             ("%(addr)s %s %(sig)s $addr ${sig} $$", True), ("{{addr}} {0} {} } {", True), ("\\1 \\g<0> \\n \\", True)]
+    fixed = FIXED_MESSAGES
     if i < len(fixed):
         return fixed[i]
     k = rng.random()
@@ -250,6 +275,14 @@ def call(rec, case, what, fn, *a, **kw):
     return True, v
 
 
+def triple(parsed):
+    """what parse_signed returned as a tuple of three when it is any sequence of three (the statement names the three parts, not the
+    container), else the value itself."""
+    if isinstance(parsed, (tuple, list)) and len(parsed) == 3:
+        return tuple(parsed)
+    return parsed
+
+
 def judge_signature(rec, case, m, sig, z, Pref, comp, sfx=""):
     """a produced signature: text of 65 bytes in base64, header 27 + recid + 4*compressed, recovers the signer over z."""
     raw = RM.strict_b64(sig) if isinstance(sig, str) else None
@@ -266,9 +299,56 @@ def judge_signature(rec, case, m, sig, z, Pref, comp, sfx=""):
     return h
 
 
+_BOUNDS = set()
+
+
+def message_classes(msg, armour_ok):
+    """the regions of 'all unicode messages' that the statement and the digest's length prefix single out."""
+    n = len(msg.encode("utf8"))
+    out = ["utf8_len:0" if n == 0 else "utf8_len:1..252 (1-byte length prefix)" if n <= 252 else
+           "utf8_len:253..65535 (3-byte length prefix)" if n <= 65535 else "utf8_len:>65535 (5-byte length prefix)"]
+    if n in (252, 253, 65535, 65536):
+        out.append("utf8_len:at a length-prefix boundary")
+    rest = msg.replace("\r\n", "")
+    if "\r\n" in msg and "\n" not in rest and "\r" not in rest:
+        out.append("multi_line:crlf_only")
+    elif "\n" in msg and "\r" not in msg:
+        out.append("multi_line:lf_only")
+    elif "\n" in msg or "\r" in msg:
+        out.append("multi_line:mixed or lone CR")
+    if any(ord(c) > 0xffff for c in msg):
+        out.append("non_bmp")
+    elif not msg.isascii():
+        out.append("non_ascii_bmp")
+    if msg != msg.strip():
+        out.append("leading or trailing white space")
+    if any(t in msg for t in ("{", "%", "$", "\\")):
+        out.append("template_syntax")
+    if "-----" in msg or "SIGNED MESSAGE" in msg or "Address:" in msg:
+        out.append("marker or marker look-alike")
+    out.append("armour_domain:inside" if armour_ok else "armour_domain:outside (signed and verified, not armoured)")
+    return out
+
+
+def script_hash_address(net, h160, own):
+    """the pay-to-script-hash address of this network that carries the 20 bytes of the signer's key hash: another address (it names a
+    script, not the key). None when the network has no such address form or it coincides with the key's address."""
+    st, a = observe(net.address.for_p2sh, h160)
+    if st != "ok" or not isinstance(a, str) or a == own:
+        return None
+    return a
+
+
 def check_signed(net, code, se, comp, msg, armour_ok, rec, m, rng, light=False, others=None):
     case = {"net": code, "se": se, "compressed": comp, "msg": msg, "armour": armour_ok}
     rec.case(("honest", code, se, comp, msg))
+    rec.ev("net:" + code)
+    rec.ev("key:compressed" if comp else "key:uncompressed")
+    if not _BOUNDS:
+        _BOUNDS.update(boundary_exponents())
+    rec.ev("key:at a range boundary" if se in _BOUNDS else "key:random 64-bit" if se < 1 << 64 else "key:random")
+    for k in message_classes(msg, armour_ok):
+        rec.ev("msg:" + k)
     name = net.network_name
     z = RM.digest(name, msg)
     Pref = m.refpub(se)
@@ -366,6 +446,18 @@ def check_signed(net, code, se, comp, msg, armour_ok, rec, m, rng, light=False, 
     ok, v = call(rec, case, "verify", net.msg.verify, key.address(is_compressed=not comp), sig, msg)
     if ok and v is not False:
         rec.violation("msg.verifies_for_other_address", dict(case, other="same key, other compression"), v, False)
+    # an address of another kind carrying the same 20 bytes: it names a script, not the signer's key. Only True is judged (refusing such an
+    # address with an exception is not what the statement is about)
+    sha = script_hash_address(net, RS.hash160(RS.encode(Pref, comp)), addr)
+    if sha is None:
+        rec.ev("verify(other address: script hash) not available on this network")
+    else:
+        rec.ev("verify(other address: script hash with the signer's key hash)")
+        st, v = observe(net.msg.verify, sha, sig, msg)
+        if st == "ok" and v is not False:
+            rec.violation("msg.verifies_for_other_address.script_hash", dict(case, other="script hash address", address=sha), v, False)
+        elif st != "ok":
+            rec.ev("verify(other address: script hash) raises: not judged")
     if others:
         ocode = rng.choice(others)
         onet = m.nets[ocode]
@@ -380,7 +472,8 @@ def check_signed(net, code, se, comp, msg, armour_ok, rec, m, rng, light=False, 
     if ok and armour_ok:
         rec.ev("parse_signed")
         st, parsed = observe(net.msg.parse_signed, text)
-        if st != "ok" or tuple(parsed) != (msg, addr, sig):
+        parsed = triple(parsed) if st == "ok" else parsed
+        if st != "ok" or parsed != (msg, addr, sig):
             rec.violation("msg.armour_roundtrip_mismatch", case, parsed, [msg, addr, sig])
         if st == "ok" and isinstance(parsed, tuple) and len(parsed) == 3:
             rec.ev("verify(parsed armour)")
@@ -396,24 +489,37 @@ def check_signed(net, code, se, comp, msg, armour_ok, rec, m, rng, light=False, 
 def run_honest(spec, rec, m):
     rng = shard_rng(spec["seed"], PROPERTY, spec["tier"], spec["shard"])
     codes_all = sorted(m.nets)
-    codes = [c for i, c in enumerate(codes_all) if i % spec["parts"] == spec["part"]]
+    seed = spec["seed"]
+    stride = spec.get("net_stride", 1)
+    pool = [(gi, c) for gi, c in enumerate(codes_all) if (gi + seed) % stride == 0]
+    mine = [(gi, c) for k, (gi, c) in enumerate(pool) if k % spec["parts"] == spec["part"]]
     bounds = boundary_exponents()
+    nb, nfix = len(bounds), len(FIXED_MESSAGES)
     light = bool(spec.get("light"))
-    for ci, code in enumerate(codes):
+    per = spec["per_net"]
+    # gi = position of the network among all usable ones: keys, key forms and messages are laid out along (gi, j), so that every
+    # network meets both key forms and boundary as well as random keys, and the networks together meet every boundary key in both forms
+    # and every fixed message many times
+    n_bound = min(2 * nb, per * 2 // 3)         # non-light: the first n_bound cases of a network use boundary keys
+    n_fixed = min(nfix, per * 2 // 3)           # ... and a block of fixed messages that moves on from network to network
+    for gi, code in mine:
         net = m.nets[code]
-        for j in range(spec["per_net"]):
+        for j in range(per):
             if light:
-                se = bounds[(ci + spec["part"] * 5 + j) % len(bounds)] if (ci + j) % 2 == 0 else rng.randrange(1, N)
+                se = bounds[(gi * 5 + j) % nb] if (gi + j) % 2 == 0 else rng.randrange(1, N)
+                comp = bool(((gi + j) // 2 + j) & 1)
                 mi = rng.randrange(0, 40)
             else:
-                se = bounds[j % len(bounds)] if j < 2 * len(bounds) else (rng.randrange(1, N) if rng.random() < 0.8 else rng.randrange(1, 1 << 64))
-                mi = j if ci % 2 == 0 else j + 12
-            comp = bool((j + ci) & 1) if j >= len(bounds) or light else j % 2 == 0
-            if not light and len(bounds) <= j < 2 * len(bounds):
-                comp = j % 2 == 1
+                if j < n_bound:
+                    se = bounds[(j + gi) % nb]
+                    comp = bool((j + gi + gi // 2 + j // nb) & 1)
+                else:
+                    se = rng.randrange(1, N) if rng.random() < 0.8 else rng.randrange(1, 1 << 64)
+                    comp = bool((j + gi) & 1)
+                mi = (gi * n_fixed + j + 5 * seed) % nfix if j < n_fixed else RANDOM_MESSAGE
             msg, arm = gen_message(rng, mi)
             s = check_signed(net, code, se, comp, msg, arm, rec, m, rng, light=light, others=codes_all)
-            if s and j == 13 + 2 * ci + spec["part"] and ci < 2:
+            if s and j == 5 + gi and gi < 3:
                 rec.sample(dict(s, op="sign / verify / recover / armour"))
         rec.ev("networks_usable")
 
@@ -463,6 +569,8 @@ def query_other(rec, case, net, target, what, sig, other, family, by="text", via
         return
     if not TE.encodable(other):
         rec.ev("verify(unencodable or bytes spelling) returns")
+        if not v:
+            return                                      # not a message of the statement's domain: anything but "verifies" is acceptable
     if v is not False:
         rec.violation("msg.verifies_for_equivalent_message%s.%s" % (via and ".armour", family), dict(case, target=what, by=by), v, False)
 
@@ -530,7 +638,8 @@ def check_equiv_pair(net, code, se, comp, pair, rec, m, light=False):
         if ok and armour_domain(msg):
             rec.ev("parse_signed")
             st, parsed = observe(net.msg.parse_signed, text)
-            if st != "ok" or not isinstance(parsed, tuple) or tuple(parsed) != (msg, addr, sig):
+            parsed = triple(parsed) if st == "ok" else parsed
+            if st != "ok" or parsed != (msg, addr, sig):
                 rec.violation("msg.armour_roundtrip_mismatch", case, parsed, [msg, addr, sig])
             else:
                 rec.ev("verify(parsed armour)")
@@ -545,6 +654,7 @@ def check_equiv_pair(net, code, se, comp, pair, rec, m, light=False):
             forged = RM.armour(name, other, addr, sig)
             rec.ev("parse_signed(armour with the other spelling)")
             st, parsed = observe(net.msg.parse_signed, forged)
+            parsed = triple(parsed) if st == "ok" else parsed
             if st == "ok" and isinstance(parsed, tuple) and len(parsed) == 3 and parsed[1] == addr and parsed[2] == sig and isinstance(parsed[0], str):
                 pm = parsed[0]
                 if pm == msg:
@@ -613,6 +723,11 @@ def judge_hostile(net, code, tk, rec, text, msg, cls):
         rec.violation("msg.verify_returns_non_bool", case, v, "a bool")
         return None
     rec.ev("hostile_result:%s" % v)
+    rec.ev("hostile_target:" + tk["target"])
+    if cls == "valid_recid_ge_2" and not v:
+        # not hostile at all: a signature the reference verifies for this very key, whose R.x lies in [n, p) (recovery id 2 or 3).
+        # It stands for the produced signatures of that kind, which no search can find (probability 2^-128 per signature)
+        rec.violation("msg.valid_signature_rejected.recid_ge_2", case, v, True)
     if v:
         z = RM.digest(net.network_name, msg)
         Q = tuple(key.public_pair())
@@ -706,6 +821,15 @@ def crafted_aliases(rng, z):
             for ss in (0, N):
                 for h in (27, 28, 31, 32):
                     yield "alias_s_zero", {"se": d, "compressed": h >= 31}, RM.compact(h, x, ss)
+    # a signature whose recovered key would be the point at infinity (s R = z G, i.e. "signed" with private key 0): unrecoverable
+    for _ in range(2):
+        k = rng.randrange(1, N)
+        R = C.mul(k, C.G)
+        r0, s0 = R[0] % N, z * pow(k, -1, N) % N
+        if r0 and s0 and R[0] < N:
+            assert RM.recover(z, r0, s0, R[1] & 1) is None
+            for comp in (False, True):
+                yield "recovers_infinity", {"se": rng.choice([1, 2, N - 1]), "compressed": comp}, RM.compact(27 + (R[1] & 1) + 4 * comp, r0, s0)
     # r field = r + n (same residue, R.x = r + n < p): canonical form is (r, s) with recid | 2
     small = [r0 for r0 in range(1, 200) if C.lift_x(r0 + N) is not None and r0 + N < P_]
     for r0 in rng.sample(small, 3):
@@ -815,6 +939,7 @@ def history_step(m, rec, step, hist):
             return None
         if step.get("verbose") and op == "sign":
             st, parsed = observe(net.msg.parse_signed, sig)
+            parsed = triple(parsed) if st == "ok" else parsed
             if st != "ok" or not (isinstance(parsed, tuple) and len(parsed) == 3 and parsed[0] == msg and parsed[1] == key.address()):
                 rec.violation("msg.armour_roundtrip_mismatch", case, parsed, [msg, key.address(), "<signature>"])
                 return None
@@ -997,13 +1122,29 @@ def run_history(spec, rec, m):
     rec.ev("networks_usable", len(codes))
 
 
+def active_arithmetic():
+    """which point arithmetic the generator under test uses in this process (evidence only, never a verdict)."""
+    try:
+        from pycoin.ecdsa.secp256k1 import secp256k1_generator as g
+        mod = getattr(getattr(type(g), "multiply", None), "__module__", "") or ""
+        return "openssl" if mod.endswith("native.openssl") else "libsecp256k1" if mod.endswith("native.secp256k1") else "pure"
+    except Exception:
+        return "unknown"
+
+
 def run_shard(spec, rec):
     m = M(rec)
-    if spec["kind"] == "history":
-        rec.require("history:verify", "history:verify_by_hash", "history:verify_by_text", "history:expected_True", "history:expected_False",
-                    "history:same_signature_other_digest_back_to_back", "history:verify_after_failed_call", "history:sign", "history:malformed_text")
+    kind = spec["kind"]
+    # the configuration a shard was planned for must be the one that ran, and every kind of workload must have run in both
+    want = "pure" if (spec.get("env") or {}).get("PYCOIN_NATIVE") == "none" else "openssl"
+    rec.require("config:%s:%s" % (want, kind))
+    rec.ev("config:%s:%s" % (active_arithmetic(), kind))
+    if kind == "history":
+        rec.require("history:verify", "history:verify_by_hash", "history:verify_by_text", "history:verify_by_text_kw", "history:expected_True",
+                    "history:expected_False", "history:same_signature_other_digest_back_to_back", "history:verify_after_failed_call",
+                    "history:sign", "history:sign_hash", "history:pair", "history:pair_recoverable", "history:hash", "history:malformed_text")
         run_history(spec, rec, m)
-    elif spec["kind"] == "equiv":
+    elif kind == "equiv":
         rec.require("sign", "verify(key)", "verify(address)", "verify(equivalent message)", "verify(equivalent message, key)",
                     "verify(equivalent message, address)", "verify(equivalent message, parsed armour)", "equiv:both sides signed", "parse_signed",
                     "equiv:canonical", "equiv:compat", "equiv:case", "equiv:whitespace", "equiv:newline", "equiv:invisible", "equiv:encoding")
@@ -1015,14 +1156,29 @@ def run_shard(spec, rec):
                         "verify(equivalent message, public_key)", "equiv:control", "equiv:accents", "equiv:punct", "equiv:digits",
                         "equiv:confusable", "equiv:escape")
         run_equiv(spec, rec, m)
-    elif spec["kind"] == "honest":
-        rec.require("verify(other spelling of the message)")
-        rec.require("sign", "sign(verbose)", "verify(key)", "verify(address)", "parse_signed", "pair_for_message_hash", "hash_for_signing",
-                    "verify(other message)", "verify(other key)", "verify(other address)")
+    elif kind == "honest":
+        # every clause of the statement's first sentence, every entry point, every usable network, both key forms, and the message
+        # regions the quantifier names (empty, multi-line in both newline styles, the three length-prefix sizes, outside the BMP, and
+        # messages outside the armoured domain, which are still signed and verified)
+        rec.require("sign", "sign(verbose)", "signature_for_message_hash", "hash_for_signing", "pair_for_message_hash", "parse_signed",
+                    "verify(key)", "verify(public_key)", "verify(address)", "verify(parsed armour)", "verify(msg_hash=)",
+                    "verify(other message)", "verify(other spelling of the message)", "verify(other key)", "verify(other address)",
+                    "verify(other address: script hash with the signer's key hash)", "verify(other network)",
+                    "sign(verbose, outside armour domain)", "sign_recid:0", "sign_recid:1",
+                    "key:compressed", "key:uncompressed", "key:at a range boundary", "key:random",
+                    "msg:utf8_len:0", "msg:utf8_len:1..252 (1-byte length prefix)", "msg:utf8_len:253..65535 (3-byte length prefix)",
+                    "msg:utf8_len:>65535 (5-byte length prefix)", "msg:utf8_len:at a length-prefix boundary", "msg:multi_line:lf_only",
+                    "msg:multi_line:crlf_only", "msg:non_bmp", "msg:non_ascii_bmp", "msg:leading or trailing white space",
+                    "msg:template_syntax", "msg:marker or marker look-alike", "msg:armour_domain:inside",
+                    "msg:armour_domain:outside (signed and verified, not armoured)")
+        rec.require(*["net:" + c for c in m.nets])
         run_honest(spec, rec, m)
     else:
-        rec.require("verify(hostile)", "hostile:header_sweep", "hostile:special_r", "hostile:special_s", "hostile:bit_flip",
-                    "hostile:non_ascii", "hostile:non_b64_char")
+        rec.require("verify(hostile)", "hostile:header_sweep", "hostile:special_r", "hostile:special_s", "hostile:special_rs", "hostile:bit_flip",
+                    "hostile:b64_len_65", "hostile:b64_len_other", "hostile:text_damage", "hostile:random_text", "hostile:non_ascii",
+                    "hostile:non_b64_char", "hostile:alias_s_zero", "hostile:alias_r_plus_n", "hostile:recovers_infinity",
+                    "hostile:valid_recid_ge_2", "hostile:reference_signature", "hostile_target:key", "hostile_target:address",
+                    "hostile_result:False", "hostile_result:True")
         run_hostile(spec, rec, m)
 
 
